@@ -168,7 +168,7 @@ class Compiler:
                 self.bytecode.append((arg >> 8) & 0xFF)
             else:
                 if not 0 <= arg <= 0xFF:
-                    raise JSSyntaxError(
+                    raise self._syntax_error(
                         "Too many constants, variables or arguments in one function "
                         f"({opcode.name} operand exceeds 255)"
                     )
@@ -178,7 +178,7 @@ class Compiler:
     def _check_jump_target(self, target: int) -> None:
         """Jump targets are encoded in 16 bits: refuse code that does not fit."""
         if not 0 <= target <= 0xFFFF:
-            raise JSSyntaxError(
+            raise self._syntax_error(
                 "Function or program too large (a jump target exceeds 65535)"
             )
 
@@ -491,7 +491,14 @@ class Compiler:
             self._emit(OpCode.SET_PROP)
             self._emit(OpCode.POP)  # Pop the result of SET_PROP
         else:
-            raise JSSyntaxError("Invalid loop variable")
+            raise self._syntax_error("Invalid loop variable")
+
+    def _syntax_error(self, message: str) -> JSSyntaxError:
+        """A SyntaxError found while compiling, placed at the last construct whose position is known."""
+        loc = getattr(self, "_current_loc", None)
+        if loc is not None and loc[0] > 0:
+            return JSSyntaxError(message, loc[0], max(loc[1], 1))
+        return JSSyntaxError(message, 1, 1)
 
     def _compile_statement(self, node: Node) -> None:
         """Compile a statement."""
@@ -713,7 +720,7 @@ class Compiler:
 
         elif isinstance(node, BreakStatement):
             if not self.loop_stack:
-                raise JSSyntaxError("'break' outside of loop")
+                raise self._syntax_error("'break' outside of loop")
 
             # Find the right loop context (labeled or innermost loop/switch)
             target_label = node.label.name if node.label else None
@@ -734,9 +741,9 @@ class Compiler:
 
             if ctx is None:
                 if target_label:
-                    raise JSSyntaxError(f"label '{target_label}' not found")
+                    raise self._syntax_error(f"label '{target_label}' not found")
                 else:
-                    raise JSSyntaxError("'break' outside of loop")
+                    raise self._syntax_error("'break' outside of loop")
 
             # Emit pending finally blocks before the break
             self._emit_pending_finally_blocks(ctx)
@@ -747,7 +754,7 @@ class Compiler:
 
         elif isinstance(node, ContinueStatement):
             if not self.loop_stack:
-                raise JSSyntaxError("'continue' outside of loop")
+                raise self._syntax_error("'continue' outside of loop")
 
             # Find the right loop context (labeled or innermost loop, not switch)
             target_label = node.label.name if node.label else None
@@ -761,7 +768,7 @@ class Compiler:
                     break
 
             if ctx is None:
-                raise JSSyntaxError(f"label '{target_label}' not found")
+                raise self._syntax_error(f"label '{target_label}' not found")
 
             # Emit pending finally blocks before the continue
             self._emit_pending_finally_blocks(ctx)
